@@ -16,7 +16,7 @@ from .inline import canon_calls, inline_pure_exprs, inlined_function
 _CACHE: Dict[tuple, Tuple[ast.FunctionDef, GuardWalk, list]] = {}
 # methods of the library's classes that rules and atom recognisers read by name
 VOCABULARY = ('contains', 'positions', 'front', 'swap', 'subgrid', 'object_types', 'type_index',
-              'num_states', 'is_move', 'from_orientation', 'from_shape', 'as_radians',
+              'num_states', 'is_move', 'is_turn', 'from_orientation', 'from_shape', 'as_radians',
               'y_coordinates', 'x_coordinates', 'validate', 'register', 'from_name',
               'as_position', 'functional_step', 'functional_reset', 'functional_observation',
               'convert', 'set_seed')
